@@ -258,8 +258,9 @@ def hs_validate(pid, cases, outcomes, wd, verdict, consts, tag="hs"):
         raise vlib.CheckError("handshake trace validation consumed %d of %d cases:\n%s" % (len(ends), len(lines), r.out[-1500:]))
     byid = {c["id"]: c for c in cases}
     stats = dict(validated=len(ends), drift=0, drift_kinds={}, attributed=0, accepted_model=0, crashed=0, allowed=0)
+    violating = set(o["c"] for (t, o) in r.prints if t == "VIOL")
     for cid, e in ends.items():
-        if e["drift"]:
+        if e["drift"] and cid not in violating:       # drift = the model differs while the monitors hold
             stats["drift"] += 1
             stats["drift_kinds"][e["drift"]] = stats["drift_kinds"].get(e["drift"], 0) + 1
         stats["attributed"] += 1 if e["attributed"] else 0
